@@ -227,6 +227,8 @@ aggg!(c13_2_same_apart, 2, [A, A], [0, 1]);
 aggg!(c13_2_diff_adjacent, 2, [A, B], [0, 0]);
 aggg!(c13_2_file_anon_adjacent, 2, [A, Anon], [0, 0]);
 aggg!(c13_3_fold_adjacent, 3, [A, Anon, A], [0, 0, 0]);
+aggg!(c13_3_fold_hole_before_page, 3, [A, Anon, A], [0, 1, 0]);
+aggg!(c13_3_fold_hole_after_page, 3, [A, Anon, A], [0, 0, 1]);
 agg!(c13_1_file, 1, [A], false);
 agg!(c13_1_heap, 1, [Heap], false);
 agg!(c13_1_deleted, 1, [ADeleted], false);
